@@ -424,6 +424,7 @@ package document
 
 //@ func NewDocumentFromCbor
 //@   props C15 C12
+//@   covers "an-import-can-succeed": result1 == nil
 //@   ensures "object-or-error": (result1 == nil) == (result0 != nil)
 //@   proves "envelope-decoded": result1 == nil ==> envOK(data) && env.Magic === envMagic(data) && env.Version == envVersion(data) && env.SHA256 === envSha(data) && env.Payload === envPayload(data)
 //@   proves "envelope-checked": result1 == nil ==> env.Magic === magicRawDoc() && env.Version <= 1 && env.SHA256 === hashF(5, env.Payload)
@@ -466,6 +467,7 @@ package document
 // bytes). Proved from the two contracts above and the CBOR library round-trip axioms alone.
 //@ func roundTripLemma
 //@   props C15
+//@   covers "premise-satisfiable": result1 == nil
 //@   requires doc != nil
 //@   proves "payload-of-the-exported-blob-is-the-record-of-the-raw-bytes": result1 == nil ==> envPayload(blob) === docPayload(doc)
 //@   proves "record-field-0": rawDocField(docPayload(doc), 0) === docRaw(doc, 0)
@@ -559,6 +561,7 @@ package document
 // (*DocumentEx).ToCbor produced, the imported document holds the raw bytes of the exported one in every file.
 //@ func roundTripLemmaEx
 //@   props C15
+//@   covers "premise-satisfiable": result1 == nil
 //@   requires docEx != nil
 //@   proves "inner-blob-is-the-documents-own-export": result1 == nil ==> docExDocument(envPayload(blob)) === cborEnv(magicRawDoc(), 1, hashF(5, docPayload(docEx.Document)), docPayload(docEx.Document))
 //@   proves "inner-payload-is-the-record-of-the-raw-bytes": result1 == nil ==> envOK(docExDocument(envPayload(blob))) && envPayload(docExDocument(envPayload(blob))) === docPayload(docEx.Document)
@@ -688,6 +691,7 @@ package document
 
 //@ func NewChipAuthEvidenceFromCbor
 //@   props C15 C12
+//@   covers "an-import-can-succeed": result1 == nil
 //@   ensures "object-or-error": (result1 == nil) == (result0 != nil)
 //@   ensures "accepted-only-with-expected-magic-version-and-digest": result1 == nil ==> envOK(data) && envMagic(data) === magicEvidence() && envVersion(data) == 2
 //@        && envSha(data) === hashF(5, envPayload(data))
@@ -711,6 +715,7 @@ package document
 
 //@ func UnmarshalVerifiableDoc
 //@   props C15 C12 C14
+//@   covers "an-import-can-succeed": result2 == nil
 //@   proves "envelope-decoded": result2 == nil ==> envOK(data) && env.Magic === envMagic(data) && env.Version == envVersion(data) && env.SHA256 === envSha(data) && env.Payload === envPayload(data)
 //@   proves "envelope-checked": result2 == nil ==> env.Magic === magicDocEx() && env.Version <= 1 && env.SHA256 === hashF(5, env.Payload)
 //@   proves "record-decoded": result2 == nil ==> docExOK(env.Payload) && raw.Document === docExDocument(env.Payload) && raw.ChipAuthEvidence === docExEvidence(env.Payload)
